@@ -162,8 +162,18 @@ func genCase(r *rand.Rand, c *config, thorough bool) *testCase {
 	case m < 17:
 		// a leading segment that turns into ".." once a prefix is cut off
 		tc.Mode = "prefixtrick"
-		tc.Target = "/" + letters(r, r.Intn(8)) + pick(r, []string{"..", "..", "%2e%2e", ".%2e", "..."}) +
-			pick(r, separators) + pick(r, goals) + pick(r, suffixTails)
+		m := r.Intn(8)
+		if c.Rewriter == "prefix" && c.Strip > 0 && r.Intn(2) == 0 {
+			m = c.Strip - 1 // exactly the configured prefix: what is left starts with ".."
+		}
+		tc.Target = "/" + letters(r, m) + pick(r, []string{"..", "..", "%2e%2e", ".%2e", "..."})
+		switch r.Intn(6) {
+		case 0: // the path ends in the ".." segment itself
+		case 1:
+			tc.Target += "/"
+		default:
+			tc.Target += pick(r, separators) + pick(r, goals) + pick(r, suffixTails)
+		}
 	case m < 18:
 		tc.Mode = "long"
 		n := longLen(r, thorough)
